@@ -108,6 +108,17 @@ class StmtMixin:
                 v = self.new_cell(s, self.empty_list(ANY), v.kind)
             for t in stmt.targets:
                 self.assign_target(t, v, s)
+            if isinstance(stmt.value, ast.Name) and (isinstance(v, (Cell, LVal))) and len(stmt.targets) == 1 \
+                    and isinstance(stmt.targets[0], ast.Attribute):
+                # `obj.field = name` with a list: from here on the local name and the field denote the same list object
+                t = stmt.targets[0]
+                res = []
+                self.ev(t.value, s, lambda base, s1: res.append(base) or [])
+                base = res[0]
+                if isinstance(base, Val) and base.ty[0] == "ref" and base.ty[1] is not None:
+                    fd = self.field_decl(base.ty[1], t.attr)
+                    if fd is not None and fd[1][0] == "list":
+                        s.frame.locals[stmt.value.id] = FldList(base.t, fd[0], fd[1][1])
             return [(N_, s)]
         # typed empty containers: `self.x = []`
         return self.ev(stmt.value, st, done)
@@ -340,8 +351,25 @@ class StmtMixin:
     # ------------------------------------------------------------------ control flow
     def st_If(self, stmt, st):
         lab = "if@%d" % self.rel_line(st, stmt)
+
+        def then(s):
+            # flow typing: `if isinstance(name, Class):` narrows the static class of the local in the then-branch
+            t = stmt.test
+            if isinstance(t, ast.Call) and isinstance(t.func, ast.Name) and t.func.id == "isinstance" and len(t.args) == 2 \
+                    and isinstance(t.args[0], ast.Name) and isinstance(t.args[1], ast.Name):
+                v = s.frame.locals.get(t.args[0].id)
+                cn = t.args[1].id
+                if isinstance(v, Val) and v.ty[0] == "ref" and cn in self.reg.models and not self.reg.models[cn].value:
+                    try:
+                        ci = self.class_info(cn)
+                        cur = self.class_info(v.ty[1]) if v.ty[1] else None
+                    except KeyError:
+                        ci = cur = None
+                    if ci is not None and (cur is None or cur in self.repo.mro(ci)) and ci is not cur:
+                        s.frame.locals[t.args[0].id] = Val(REF(ci.name), v.t)
+            return self.exec_block(stmt.body, s)
         return self.truth(stmt.test, st,
-                          lambda s: self.exec_block(stmt.body, s),
+                          then,
                           lambda s: self.exec_block(stmt.orelse, s) if stmt.orelse else [(N_, s)],
                           label=lab)
 
